@@ -295,6 +295,14 @@ def r04_3(ctx, m):
                  and isinstance(st.value.orelse.op, ast.USub)]
         zips = [lp for lp in walk_no_nested(fi.node) if isinstance(lp, ast.For) and "self._neg" in src(lp.iter)]
         oks = len(signs) == len(zips) >= 1 and all(src(st.value.test).startswith("not ") and src(st.value.orelse.operand) == src(st.value.body) for st in signs)
+        # ... and it is the signed operator that enters the rebuilt sum
+        for lp, st in zip(zips, signs):
+            sgn = src(st.targets[0])
+            acc = [a for a in lp.body if isinstance(a, ast.Assign) and isinstance(a.value, ast.IfExp) and a is not st]
+            okacc = len(acc) == 1 and src(acc[0].value.body) == sgn and isinstance(acc[0].value.orelse, ast.BinOp) and isinstance(acc[0].value.orelse.op, ast.Add) \
+                and src(acc[0].value.orelse.right) == sgn and src(acc[0].value.orelse.left) == src(acc[0].targets[0])
+            ctx.check("R04.3", f"{S.key}::line {lp.lineno - fi.node.lineno}: the signed summand `{sgn}` is what the rebuilt sum accumulates", okacc if acc else None,
+                      src(acc[0]) if acc else None, fi, acc[0] if acc else lp)
         ctx.check("R04.3", f"{S.key}::a summand is negated exactly when its sign flag is set", True if oks else None,
                   str([src(st) for st in signs]), fi)
     base = m.cls(OPM, "Operator").methods.get("_simplify_for_constant_input_nontrivial")
@@ -322,3 +330,136 @@ def run(ctx):  # noqa: F811
     _run_c04(ctx)
     r04_2(ctx, ctx.model)
     r04_3(ctx, ctx.model)
+
+
+def r04_4(ctx, m):
+    """the standard Hamiltonian's prior runs over ALL keys: fixing some of them leaves their prior energy in the value"""
+    from .c03 import _load_sympy
+    ctx.rule("R04.4", "StandardHamiltonian specialised to constants: the new Hamiltonian is built on the specialised likelihood, so its "
+                      "own prior covers the remaining keys only; the prior energy 1/2 <c, c> of the constant part must therefore enter "
+                      "the value separately (a stored offset that apply() adds) - otherwise the value differs from the original "
+                      "evaluated with the constants inserted (nifty's own check_operator demands equality to 1e-12)", floor=2)
+    sp = _load_sympy()
+    H = m.cls(EO, "StandardHamiltonian")
+    fn, ap = H.methods.get("_simplify_for_constant_input_nontrivial"), H.methods.get("apply")
+    if fn is None or ap is None:
+        ctx.und("R04.4", f"{H.key}::specialisation", "method missing", H)
+        return
+    ctx.saw_func(fn)
+    ctx.saw_func(ap)
+    ci = fn.params()[1]
+    key = f"{fn.key}::prior energy of the constant keys is kept"
+    news = [st for st in walk_no_nested(fn.node) if isinstance(st, (ast.Assign, ast.Return)) and st.value is not None
+            and any(isinstance(c, ast.Call) and call_name(c) == "StandardHamiltonian" for c in ast.walk(st.value))]
+    uses = [x for x in walk_no_nested(fn.node) if isinstance(x, ast.Name) and x.id == ci and isinstance(x.ctx, ast.Load)]
+    lh_calls = [c for c in walk_no_nested(fn.node) if isinstance(c, ast.Call) and call_name(c) == "simplify_for_constant_input"
+                and [src(a) for a in c.args] == [ci]]
+    other_uses = [x for x in uses if not any(x in c.args for c in lh_calls)]
+    if not news or len(lh_calls) != 1:
+        ctx.und("R04.4", key, "construction of the specialised Hamiltonian not recognised", fn)
+        return
+    if not other_uses:
+        ctx.bad("R04.4", key, f"`{ci}` is only handed to the likelihood's specialisation: the result's prior covers the remaining keys, "
+                              f"and 1/2 <{ci}, {ci}> is missing from every value", fn, news[0])
+        return
+    # recognised form: <new>._offset = self._offset + 0.5 * c.s_vdot(c).real, and apply() adds self._offset
+    offs = [st for st in walk_no_nested(fn.node) if isinstance(st, ast.Assign) and isinstance(st.targets[0], ast.Attribute)
+            and any(x in ast.walk(st.value) for x in other_uses)]
+    if len(offs) != 1 or sp is None:
+        ctx.und("R04.4", key, f"use of `{ci}` outside the likelihood's specialisation not recognised", fn)
+        return
+    attr = offs[0].targets[0].attr
+    C = sp.Symbol("C", real=True)
+    O = sp.Symbol("offset", real=True)
+
+    def ev(e):
+        if isinstance(e, ast.Constant) and isinstance(e.value, (int, float)):
+            return sp.nsimplify(e.value)
+        if isinstance(e, ast.Attribute) and src(e) == f"self.{attr}":
+            return O
+        if isinstance(e, ast.Attribute) and e.attr == "real":
+            return ev(e.value)
+        if isinstance(e, ast.BinOp) and isinstance(e.op, (ast.Add, ast.Sub, ast.Mult, ast.Div)):
+            a, b = ev(e.left), ev(e.right)
+            return {ast.Add: a + b, ast.Sub: a - b, ast.Mult: a * b, ast.Div: a / b}[type(e.op)]
+        if isinstance(e, ast.Call) and call_name(e) in ("s_vdot", "vdot") and src(e.func.value) == ci and [src(a) for a in e.args] == [ci]:
+            return C * C
+        if isinstance(e, ast.Call) and src(e.func) == "self._prior" and [src(a) for a in e.args] == [ci]:
+            return C * C / 2
+        raise ValueError(src(e)[:60])
+    try:
+        val = ev(offs[0].value)
+        ctx.check("R04.4", key, sp.simplify(val - O - C * C / 2) == 0, f"`{src(offs[0])}` reads per pixel as {val}; expected offset + C**2/2", fn, offs[0])
+    except ValueError as exc:
+        ctx.und("R04.4", key, f"offset term not understood: {exc}", fn, offs[0])
+    # apply adds the offset on every return
+    from ..util import cfg_of
+    from ..terms import inline_at
+    cfg = cfg_of(ap)
+    key2 = f"{ap.key}::every returned value contains the stored offset"
+    adds = [n for n in cfg.nodes if n.kind == "stmt" and isinstance(n.ast, ast.Assign) and isinstance(n.ast.value, ast.BinOp) and isinstance(n.ast.value.op, ast.Add)
+            and f"self.{attr}" in (src(n.ast.value.left), src(n.ast.value.right)) and src(n.ast.targets[0]) in (src(n.ast.value.left), src(n.ast.value.right))]
+    rets = [n for n in cfg.nodes if n.kind == "stmt" and isinstance(n.ast, ast.Return)]
+    if len(adds) != 1 or not rets:
+        ctx.und("R04.4", key2, f"{len(adds)} statements adding self.{attr}", ap)
+        return
+    acc = src(adds[0].ast.targets[0])
+    from ..util import known_atoms
+    from ..model import cc
+    guard = [(cc(t), pol) for t, pol in known_atoms(cfg, adds[0].id) if attr in src(t)]
+    guard_ok = all((g in (f"self.{attr} != 0.0", f"self.{attr} != 0") and pol) or (g in (f"self.{attr} == 0.0", f"self.{attr} == 0") and not pol) for g, pol in guard)
+    dom = cfg.dominators()
+    # the add (or its skipping guard) precedes every return, and every return is built on the accumulator
+    built = all(acc in {x.id for x in ast.walk(n.ast.value) if isinstance(x, ast.Name)} for n in rets)
+    before = all(adds[0].ast.lineno < n.ast.lineno for n in rets)
+    ctx.check("R04.4", key2, True if (guard_ok and built and before) else None, f"`{src(adds[0].ast)}` under {guard}; returns {[src(n.ast.value) for n in rets]}", ap, adds[0].ast)
+
+
+_run_c04b = run
+
+
+def run(ctx):  # noqa: F811
+    _run_c04b(ctx)
+    r04_4(ctx, ctx.model)
+
+
+def r04_5(ctx, m):
+    """the specialised energies carry a metric that is the Fisher metric of what they compute"""
+    from .c11 import r11_4
+    r11_4(ctx, m, rid="R04.5", only=("_SpecialGammaEnergy",))
+    ctx.rule("R04.6", "ConstantEnergyOperator (what a fully constant energy term becomes): applied to a linearization it returns the "
+                      "stored value with a null Jacobian and, when a metric is wanted, a null METRIC - operator sums attach a metric "
+                      "only if every summand delivers one, so a constant summand without metric would silently remove the metric of "
+                      "the whole specialised energy", floor=1)
+    C = m.cls("nifty.cl.operators.simplify_for_const", "ConstantEnergyOperator")
+    ap = C.methods.get("apply")
+    if ap is None:
+        ctx.und("R04.6", f"{C.key}::apply", "missing", C)
+        return
+    ctx.saw_func(ap)
+    xn = ap.params()[1]
+    cfg = cfg_of(ap)
+    rd = cfg.reaching_defs(ap.params())
+    news = [(n, c) for n in cfg.nodes if n.kind == "stmt" and isinstance(n.ast, ast.Return) and n.ast.value is not None
+            for c in [n.ast.value] if isinstance(c, ast.Call) and src(c.func) == f"{xn}.new"]
+    key = f"{ap.key}::linearised result carries a null metric when one is wanted"
+    if len(news) != 1:
+        ctx.und("R04.6", key, f"{len(news)} `{xn}.new(...)` returns", ap)
+        return
+    n, c = news[0]
+    met = c.args[2] if len(c.args) > 2 else next((k.value for k in c.keywords if k.arg == "metric"), None)
+    if met is None:
+        ctx.bad("R04.6", key, f"`{src(c)}` has no metric argument", ap, c)
+        return
+    defs = [cfg.nodes[d] for d in (rd.get(n.id) or {}).get(src(met), ())] if isinstance(met, ast.Name) else []
+    under = [d for d in defs if d.ast is not None and isinstance(d.ast, ast.Assign) and "NullOperator" in src(d.ast.value)
+             and any(src(t) == f"{xn}.want_metric" and pol for t, pol in known_atoms(cfg, d.id))]
+    ctx.check("R04.6", key, True if under else None, f"metric `{src(met)}` defined by {[src(d.ast) for d in defs if d.ast is not None]}", ap, c)
+
+
+_run_c04c = run
+
+
+def run(ctx):  # noqa: F811
+    _run_c04c(ctx)
+    r04_5(ctx, ctx.model)
